@@ -75,16 +75,29 @@ def resume_job(job):
         _, s, tr = drivers.record_run(conf, n_total=job["n_total"], seed=job["seed"], label=job["label"] + "|base", save_every=job["save_every"],
                                       out_dir=out_dir, rec=rec)
         traces.append(tr)
-        files = sorted(glob.glob(os.path.join(out_dir, "ps_*.state")))
+        def _it(f):
+            b = os.path.basename(f)[3:-6]
+            return int(b) if b.isdigit() else 10 ** 9
+
+        files = sorted(glob.glob(os.path.join(out_dir, "ps_*.state")), key=_it)
+        all_mids = [f for f in files if not f.endswith("_final.state")]
         if job.get("max_ckpt"):
             keep = [f for f in files if not f.endswith("_final.state")]
             step = max(1, len(keep) // job["max_ckpt"])
             files = keep[::step][: job["max_ckpt"]] + [f for f in files if f.endswith("_final.state")]
-        for f in files:
+        plan = [(f, job["n_total"], "") for f in files]
+        if job.get("vary_n_total", True) and files:
+            mids = [f for f in files if not f.endswith("_final.state")]
+            if mids:
+                plan.append((mids[len(mids) // 2], 2 * job["n_total"], "|n_total*2"))       # resumed run must reach the NEW target
+            for f in all_mids[-3:]:
+                plan.append((f, 4, "|n_total=4"))                                           # late periodic checkpoints: possibly nothing left to do
+            plan.append((files[-1], max(4, job["n_total"] // 2), "|n_total/2"))            # nothing left to do: zero iterations
+        for f, nt, tag in plan:
             s2, _ = drivers.build_sampler(conf, rec, out_dir=out_dir)
             rec.attach(s2)
             np.random.seed(12345)  # the ambient stream of the resuming process is unrelated
-            _, _, tr2 = drivers.record_run(conf, n_total=job["n_total"], seed=12345, label=job["label"] + "|resume:" + os.path.basename(f),
+            _, _, tr2 = drivers.record_run(conf, n_total=nt, seed=12345, label=job["label"] + "|resume:" + os.path.basename(f) + tag,
                                            resume=f, out_dir=out_dir, rec=rec, sampler=s2, save_every=None)
             tr2["meta"]["checkpoint"] = os.path.basename(f)
             traces.append(tr2)
